@@ -91,6 +91,7 @@ def swarm_config(k):
         "n_jobs": r.randint(1, 6),
         "n_servers": r.randint(1, 4),
         "builders": r.random() < 0.45,
+        "rich_builders": r.random() < 0.5,      # (only with builders) two GPU servers, two GenAI models, every service class
         "p_share_job": r.choice([0.0, 0.3, 0.6]),
         "p_share_step": r.choice([0.0, 0.3, 0.6]),
         "p_share_misc": r.choice([0.0, 0.4, 0.8]),
@@ -154,6 +155,10 @@ def gen_spec(k, cfg):
 
     servers, gpu_servers = [], []
     n_srv = cfg["n_servers"]
+    rich = bool(cfg["builders"] and cfg.get("rich_builders"))
+    forced_classes = ["Server", "BoaviztaCloudServer", "GPUServer", "GPUServer"] if rich else []
+    if rich:
+        n_srv = 4
     for i in range(1, n_srv + 1):
         st_attrs = nums("Storage")
         if cfg["short_storage"] and r.random() < 0.7:
@@ -169,7 +174,11 @@ def gen_spec(k, cfg):
             cls = r.choice(["Server", "Server", "BoaviztaCloudServer", "GPUServer"])
         if i == 1 and cls == "GPUServer":
             cls = "Server"
+        if forced_classes:
+            cls = forced_classes[i - 1]
         a = nums(cls)
+        if rich and cls == "GPUServer":
+            a["compute"] = ["q", a["compute"][1] * 6, a["compute"][2]]     # room for two models on one server
         stype = r.choice(SERVER_TYPES)
         a["server_type"] = ["s", stype]
         a["fixed_nb_of_instances"] = ["e"]
@@ -185,9 +194,12 @@ def gen_spec(k, cfg):
 
     services = {"VideoStreaming": [], "WebApplication": [], "GenAIModel": []}
     if cfg["builders"]:
-        n_svc = r.randint(1, 3)
+        n_svc = 5 if rich else r.randint(1, 3)
+        forced_svc = ["VideoStreaming", "WebApplication", "GenAIModel", "GenAIModel", "WebApplication"] if rich else []
         for i in range(1, n_svc + 1):
             cls = r.choice(["VideoStreaming", "WebApplication", "GenAIModel"])
+            if forced_svc:
+                cls = forced_svc[i - 1]
             if cls == "GenAIModel" and not gpu_servers:
                 cls = r.choice(["VideoStreaming", "WebApplication"])
             a = nums(cls)
@@ -203,7 +215,9 @@ def gen_spec(k, cfg):
             services[cls].append(add(f"svc{i}", cls, a))
 
     jobs = []
-    for i in range(1, cfg["n_jobs"] + 1):
+    n_jobs = max(cfg["n_jobs"], 5) if rich else cfg["n_jobs"]
+    forced_jobs = ["GenAIJob", "VideoStreamingJob", "WebApplicationJob", "GenAIJob", "Job"] if rich else []
+    for i in range(1, n_jobs + 1):
         choices = ["Job", "Job"]
         if services["VideoStreaming"]:
             choices.append("VideoStreamingJob")
@@ -212,6 +226,8 @@ def gen_spec(k, cfg):
         if services["GenAIModel"]:
             choices.append("GenAIJob")
         cls = r.choice(choices)
+        if forced_jobs and i <= len(forced_jobs):
+            cls = forced_jobs[i - 1]
         a = nums(cls)
         if cls == "Job":
             a["server"] = ["ref", r.choice(servers)]
